@@ -66,7 +66,7 @@ def run(ctx):
             ctx.sample({"case": r["a"], "request_text": r["history"]["requests"][:1], "response_text": r["history"]["responses"][:1]})
     pooled_schedules(ctx)
     from checks import growth
-    growth.run_history_and_predicates(ctx)
+    growth.safely(ctx, growth.run_history_and_predicates)
 
 
 def pooled_schedules(ctx):
